@@ -280,6 +280,61 @@ func init() {
 		}
 		return TupleV{st.newByteSlice(out), IfaceV{}}, true
 	}
+	// go-ethereum common.IsHexAddress / HexToAddress on strings whose hex digits are renderings or constants
+	hexNibbles := func(s StringV) ([]*Term, bool) {
+		b := s.B
+		if len(b) >= 2 && b[0].IsConst() && b[0].Uint64() == '0' && b[1].IsConst() && (b[1].Uint64() == 'x' || b[1].Uint64() == 'X') {
+			b = b[2:]
+		}
+		out := make([]*Term, len(b))
+		for i, c := range b {
+			if o, ok := hexOrigin[c]; ok {
+				out[i] = o
+				continue
+			}
+			if !c.IsConst() {
+				return nil, false
+			}
+			v := c.Uint64()
+			switch {
+			case v >= '0' && v <= '9':
+				out[i] = ConstU(v-'0', 4)
+			case v >= 'a' && v <= 'f':
+				out[i] = ConstU(v-'a'+10, 4)
+			case v >= 'A' && v <= 'F':
+				out[i] = ConstU(v-'A'+10, 4)
+			default:
+				return nil, false
+			}
+		}
+		return out, true
+	}
+	exact["github.com/ethereum/go-ethereum/common.IsHexAddress"] = func(e *Engine, st *State, fn *ssa.Function, args []Value, retTo *ssa.Call) (Value, bool) {
+		s := args[0].(StringV)
+		if _, ok := s.Concrete(); ok {
+			return nil, false
+		}
+		nib, ok := hexNibbles(s)
+		if !ok {
+			return nil, false
+		}
+		return ConstBool(len(nib) == 40), true
+	}
+	exact["github.com/ethereum/go-ethereum/common.HexToAddress"] = func(e *Engine, st *State, fn *ssa.Function, args []Value, retTo *ssa.Call) (Value, bool) {
+		s := args[0].(StringV)
+		if _, ok := s.Concrete(); ok {
+			return nil, false
+		}
+		nib, ok := hexNibbles(s)
+		if !ok || len(nib) != 40 {
+			return nil, false
+		}
+		arr := &ArrayV{E: make([]Value, 20)}
+		for i := 0; i < 20; i++ {
+			arr.E[i] = Concat(nib[2*i], nib[2*i+1])
+		}
+		return arr, true
+	}
 	exact["encoding/hex.Encode"] = func(e *Engine, st *State, fn *ssa.Function, args []Value, retTo *ssa.Call) (Value, bool) {
 		dst, src := args[0].(SliceV), args[1].(SliceV)
 		bs := st.sliceBytes(src)
